@@ -68,6 +68,7 @@ std::string ExecImpl::param_text(const MExp& e, int i, bool& negated) const {
     case MK_RIS: return " range is {" + v + ", " + std::to_string(e.v[m.vi] + 1) + ", " + v + " }";
     case MK_RSTART: return " range starts with {" + v + " }";
     case MK_RENDS: return " range ends with {" + std::to_string(e.v[m.vi] + 1) + ", " + v + " }";
+    case MK_RENDS3: return " range ends with {" + v + ", " + std::to_string(e.v[m.vi] + 1) + ", " + v + " }";
     case MK_RPERM: return " range is permutation of {" + std::to_string(e.v[m.vi] + 1) + ", " + v + ", " + v + " }";
     case MK_RALL: return " range is all >= " + v;
     case MK_RNONE: return " range is none == " + v;
